@@ -355,8 +355,10 @@ def c_child_all_resources(ex, recv, args, kwargs, q, node):
     return [(("child_infos", recv), q)]
 
 
-def verify_all_resources():
-    fv = FnVerifier("MemoryMap.all_resources", AX)
+def verify_all_resources(qualname="MemoryMap.all_resources", pre_hook=None, yield_hook=None, only_hook=False):
+    """pre_hook(q, self_, h, named) may add premises (further invariant layers); yield_hook(fv, lab, p, path_value, idx, ci,
+    named, self_, h) may add clauses per yield (used by contracts/naming.py for the origin-of-names layer)"""
+    fv = FnVerifier(qualname, AX)
     fn = find_def(FILE, "MemoryMap.all_resources")
     n_y = 0
     for named in (True, False):
@@ -372,6 +374,8 @@ def verify_all_resources():
         # iteration index (loop_all_resources)
         q.ghost["wf_align_at"] = h["wf_align_at"]
         q.assume(leaf_definition(self_.ref, v))
+        if pre_hook is not None:
+            pre_hook(q, self_, h, named)
         # the name stored with a window is either None (anonymous) or a Name: two cases
         mm.IdDictModel.window_name_case = named
         outs = ex.run(fn, q)
@@ -385,6 +389,10 @@ def verify_all_resources():
             g = lambda f: ex.getattr(val, f, p, None)[0][0]
             st, en, wd = ex.toint(g("_start")), ex.toint(g("_end")), ex.toint(g("_width"))
             ci = p.ghost.get("child_info")
+            if yield_hook is not None:
+                yield_hook(fv, lab, p, g("_path"), idx, ci, named, self_, h)
+                if only_hook:
+                    continue
             if ci is None:
                 fv.add("own-resource-reported-at-its-range", lab, p.pc,
                        z3.And(v.isres[v.V[idx]], g("_resource").ident == v.V[idx], st == v.S[idx], en == v.E[idx], wd == h["dw"]))
@@ -407,7 +415,8 @@ def verify_all_resources():
             fv.add("yield-contract:in-own-address-space", lab, p.pc, z3.And(0 <= st, st < en, en <= pow2(h["aw"]), wd >= 0))
             fv.add("yield-contract:leaf-yields-own-width-aligned-to-own-alignment", lab, p.pc,
                    z3.Implies(Leaf(self_.ref), z3.And(wd == h["dw"], mm.Al(st, h["al"]), mm.Al(en - st, h["al"]))))
-        fv.add_engine_obligations(ex)
+        if not only_hook:
+            fv.add_engine_obligations(ex)
     mm.IdDictModel.window_name_case = None
     fv.add("cover:yields", "vacuity", [], z3.BoolVal(n_y >= 2))
     return fv
